@@ -8,6 +8,7 @@ import (
 	"crypto/tls"
 	"errors"
 	"fmt"
+	"github.com/hashicorp/go-plugin/internal/verifhook"
 	"log"
 	"net"
 	"sync"
@@ -317,6 +318,7 @@ func (b *GRPCBroker) Accept(id uint32) (net.Listener, error) {
 			}
 		}()
 
+		verifhook.Point("grpcbroker.accept.mux.registering", id)
 		ln, err := b.muxer.Listener(id, p.doneCh)
 		if err != nil {
 			return nil, err
@@ -349,6 +351,7 @@ func (b *GRPCBroker) Accept(id uint32) (net.Listener, error) {
 		return nil, err
 	}
 
+	verifhook.Point("grpcbroker.accept.listening", id)
 	advertiseNet := listener.Addr().Network()
 	advertiseAddr := listener.Addr().String()
 	if b.addrTranslator != nil {
@@ -482,6 +485,7 @@ func (b *GRPCBroker) knock(id uint32) error {
 		return err
 	}
 
+	verifhook.Point("grpcbroker.knock.sent", id)
 	// Wait for the ack.
 	p := b.getClientStream(id)
 	select {
@@ -542,6 +546,7 @@ func (b *GRPCBroker) DialWithOptions(id uint32, opts ...grpc.DialOption) (conn *
 		return nil, fmt.Errorf("timeout waiting for connection info")
 	}
 
+	verifhook.Point("grpcbroker.dial.gotInfo", id)
 	network, address := c.Network, c.Address
 	if b.addrTranslator != nil {
 		network, address, err = b.addrTranslator.PluginToHost(network, address)
@@ -588,6 +593,7 @@ func (m *GRPCBroker) Run() {
 			break
 		}
 
+		verifhook.Point("grpcbroker.run.recv", msg.ServiceId)
 		// Initialize the waiter
 		var p *gRPCBrokerPending
 		if msg.Knock != nil && msg.Knock.Knock && !msg.Knock.Ack {
